@@ -139,6 +139,11 @@ def policy(rng, scenario):
     pe = rng.choice([0.0, 0.02, 0.1, 0.3])
     if scenario['sched']['granularity'] == 'instr':
         p /= 4
+    if rng.random() < 0.25:
+        d = rng.choice([1, 2, 3, 4])
+        return Policy(p_event=pe, p_io=0.3, pct_depth=d,
+                      pct_len=rng.choice([200, 1000, 3000]),
+                      name='pct(d=%d,pe=%s)' % (d, pe))
     return Policy(p_sched=p, p_event=pe, p_io=0.3,
                   name='rw(p=%s,pe=%s)' % (p, pe))
 
@@ -502,10 +507,17 @@ def check(scenario, w, st, res):
                for o in opens):
             continue          # concurrent with an opening call: either
         nxt = min([o.r.inv for o in opens if o.r.inv > d.r.ret] or [10**12])
+        # linearisation point: the call's last visible effect, else return
+        lin = d.r.ret
+        eff = [seq for seq, tid, kind, dd, vt in hist
+               if tid == d.tid and d.r.inv < seq < d.r.ret and
+               kind in ('shutdown', 'close', 'file-close', 'attr-write')]
+        if eff:
+            lin = eff[-1]
         ob()
         for seq, tid, kind, dd, vt in hist:
-            if d.r.ret < seq < nxt and kind in ('connect',
-                                                'connect-refused'):
+            if lin < seq < nxt and kind in ('connect',
+                                            'connect-refused'):
                 t = sim.threads[tid] if 0 <= tid < len(sim.threads) else None
                 inside = any(o.tid == tid and o.r.inv < seq <
                              (o.r.ret or 10**12) for o in opens)
